@@ -53,10 +53,16 @@ ParseRow(H, toks, term) ==
 \* ---- the iterator (CsvLineParser::next) as a machine -----------------------------------
 \* registers: lineNumber (physical lines consumed); one NextItem call consumes lines until it
 \* can return: the first line is skipped, end of file gives "none"
+\* a physical line that is not valid UTF-8 (token "<BAD-UTF8>"): read_line fails AFTER consuming the line and after
+\* the line counter was advanced; the iterator yields an I/O error (without line number) and goes on with the next
+\* line.  This happens before the header test, so an undecodable header is reported, not skipped.
+BadUtf8(line) == \E i \in 1..Len(line.toks) : line.toks[i] = "<BAD-UTF8>"
+
 RECURSIVE NextItem(_, _, _)
 NextItem(H, file, ln) ==     \* ln = line_number before the call
   LET n == ln + 1 IN
   IF n > Len(file) THEN [item |-> [none |-> TRUE], ln |-> n]
+  ELSE IF BadUtf8(file[n]) THEN [item |-> [ioerr |-> TRUE], ln |-> n]
   ELSE IF n = 1 THEN NextItem(H, file, n)                       \* header: skipped, whatever it contains
   ELSE LET r == ParseRow(H, file[n].toks, file[n].term) IN
        [item |-> IF r = PErr THEN [err |-> n] ELSE [ok |-> r], ln |-> n]
